@@ -354,6 +354,15 @@ pub fn gen_req(token: u64, rng: &mut Rng, st: &mut GenStats) -> Req {
                 }
                 3 => {
                     query = rng.pick(&UNKNOWN_PATHS).as_bytes().to_vec();
+                    // one unknown path in six is long (the error text quotes it): 200 B .. 5 KiB, around 1 KiB often
+                    if rng.chance(1, 6) {
+                        let extra = match rng.below(3) {
+                            0 => 900 + rng.usize_below(300),
+                            1 => 200 + rng.usize_below(600),
+                            _ => 1200 + rng.usize_below(4000),
+                        };
+                        query.extend(std::iter::repeat(b'x').take(extra));
+                    }
                     codes.push(6);
                     labels.push("unknown-path");
                     target = None;
